@@ -34,7 +34,7 @@ def upload_scenario(rng, n, plens, outgoing):
             # the manager allows the upload iff it has the peer unchoked and owns the piece
             allow = we_unchoked and i < n and i in stored
             ev.append(ev_msg(m_request(i, b, l), req=("LOAD:%d" % i) if allow else "IGN"))
-    return ev
+    return ev[:2] + split_events(rng, ev[2:], 0.2)
 
 
 class C09(HndBase):
